@@ -281,7 +281,9 @@ RULE = ("stochastic model programs with pub/sub fan-out: 2-3 self-rescheduling h
         "MersenneTwister streams, 1-3 event types, 3-6 listener programs of which at least 3 subscribe to one type; listeners "
         "schedule events (drawn and zero delays), draw observed values (next_int, next_float) from the shared streams, "
         "unsubscribe themselves or others, subscribe others, fire further types, cancel events; SimTally, SimPersistent, SimCounter "
-        "(also two statistics on one data stream) built in construct_model; each program is executed by 5-6 child interpreters: "
+        "(also two statistics on one data stream) built in construct_model; every second program hands 2-4 SimEvent objects built "
+        "before initialize (some before, some after the unrelated prior activity of the process) to schedule_event(event) from "
+        "construct_model / handlers, tied in time and priority with ordinary events; each program is executed by 5-6 child interpreters: "
         "PYTHONHASHSEED 0 / 1 / 2 / a drawn 32-bit value / random; prior activity none / small / large / medium / very large (17 to 5000 event ids "
         "consumed, 0-40 event types, 0-25 listeners, 50-12345 objects allocated and half dropped, 0-3 other simulations run); "
         "uninterrupted, one cut, three cuts, steps and cuts mixed, and (every 6th program) stop() from a handler followed by start. "
@@ -378,7 +380,8 @@ def main(tier: str) -> int:
         for vi, job, o in lst_all:
             for nm in "abc":
                 ndraws[nm] = max(ndraws.get(nm, 0), sum(1 for d in o["full"]["draws"] if d[0] == nm))
-        pairs = [(job["job"]["case"], o["full"]) for vi, job, o in lst_all if not job["job"]["case"].get("stop_at")]
+        pairs = [(dict(job["job"]["case"], _early_built=True), o["full"]) for vi, job, o in lst_all
+                 if not job["job"]["case"].get("stop_at")]
         groups.append((pi, model, ndraws, pairs))
     hist["distinct_hash_probes"] = len(hist["distinct_hash_probes"])
     run.cov["evaluations"] = n_children
